@@ -1,6 +1,7 @@
 import GateryModel.C18.Lemmas3
 import GateryModel.C18.Literal
 import GateryModel.C18.BigInt
+import GateryModel.C18.CompareExt
 /-!
 # C18 — property theorems
 
@@ -15,10 +16,10 @@ Statements only — the proofs are in `C18/Lemmas.lean`, `Lemmas2.lean`, `Seq.le
 
 Covered by theorem: get/set/clear/toggle, insertNonStraddling, extractNonStraddling, insert, extract (straddling
 included), setRange/clearRange (3-segment split), copyRange (byte fast path + chunk loop), compareRange
-(DefaultConfig specialisation), resize, operator==, allOne/allZero/allDefined/anyDefined, extract(start,size),
+(DefaultConfig and ExtendedConfig specialisations), resize, operator==, allOne/allZero/allDefined/anyDefined, extract(start,size),
 insert(state,…), append, extractBigInt / insertBigInt (≤ 64 bit path and word-aligned wide path, negative values as two's complement) and their round trip, and arbitrary operation sequences.
 Covered by correspondence only (driver compares model AND spec with the implementation, no theorem yet):
-compareRange<ExtendedConfig>, literal parsing (`parseBitVector`: model in C18/Literal.lean follows the
+ literal parsing (`parseBitVector`: model in C18/Literal.lean follows the
 spirit grammar and the container calls; the driver also checks the digit-by-digit grammar specification `specDigits`) and
 formatting (`operator<<` binary / hex).
 -/
@@ -83,6 +84,16 @@ theorem compareRangeDefault_spec (dv dd sv sd : Plane) (dOff sOff size : Nat)
     cases h0 : bit sd (sOff + j)
     · exact Or.inl rfl
     · exact Or.inr (h2 h0)
+
+/-- `compareRange` for `ExtendedConfig` (planes VALUE, DEFINED, DONT_CARE, HIGH_IMPEDANCE; chunks of up to 64 bits) decides the
+    bit-by-bit extended comparison: a don't-care on either side matches anything; otherwise high impedance and definedness agree and,
+    where the source is defined, the values agree. -/
+theorem compareRangeExt_spec (d s : BVS) (dOff sOff size : Nat)
+    (hd : ∀ k, k < 4 → dOff + size ≤ 64 * (d.plane k).length) (hs : ∀ k, k < 4 → sOff + size ≤ 64 * (s.plane k).length) :
+    d.compareRangeExt dOff s sOff size = true ↔ ∀ j, j < size → cmpExtAt d s dOff sOff j = true := by
+  unfold BVS.compareRangeExt
+  rw [compareChunksExt_spec d s dOff sOff size _ 0 hd hs (by omega)]
+  exact ⟨fun h j hj => h j (Nat.zero_le _) hj, fun h j _ hj => h j hj⟩
 
 /-- `operator==` (word-wise comparison with the last word masked) decides equality of the first `size` bits. -/
 theorem eq_spec (a b : Plane) (size : Nat) (ha : a.length = (size + 63) / 64) :
